@@ -18,7 +18,19 @@ Streams
             alt block) - x marker characters x inline/own-line x gaps; comment bodies incl. one-line `key: value` / `word: text`
             comments and the Markdown constructs whose definitions are kept on the Markdown instance:
             footnotes, reference-style links, abbreviations, with labels shared between comments) -> Project -> per entity
-            (a) correspondence: (name, metadata, doc_list) == Lean `entDocs (attach (readAll lines))`,
+            Programs also contain type extension (public / private components, `private` statement, generic
+            bindings), interface blocks with procedure bodies (plain, abstract, bodies inside generic interfaces),
+            comments written in the wide-indented style (`!!    text`) or starting with an indented code block, a
+            first body line `Word: text` after the blank line that ends a metadata header; the project is built
+            with the default `display` or with private entities displayed.
+            Entities are found on two routes: the file's registration list (creation order) and an independent
+            walk over the entity tree (what the pages show); a spy on FortranBase.markdown tells which objects
+            were converted, and in which order.
+            (a) correspondence: (name, metadata, doc_list) == Lean `entDocsW (attachW (readAll lines))`
+                (wrapper entities of interface blocks included; metadata as parsing left it),
+                converted objects == Lean `convIdx` (model of markdownable_items / Project.markdown), objects with a
+                placeholder `doc` / emptied metadata after `correlate` == Lean `inheritStep` on the public components
+                of extended types,
                 run(dedent(doc_list)) == Lean pipeline, and that is what Markdown was handed;
                 link targets / footnote list / abbreviation titles of every entity's HTML == Lean `markdownAll`
                 (model of the one shared Markdown instance: reset + convert per entity, in conversion order);
@@ -289,10 +301,15 @@ def gen_body(rng, tr, feat, max_blocks=4, notes=True, mdstate=True):
             feat.add("fenced-code")
         else:
             if not lines:
-                lines.append(tr.words(rng))
-                lines.append("")
+                if rng.random() < 0.5:
+                    lines.append(tr.words(rng))
+                    lines.append("")
+                else:
+                    # the comment starts with the code block: its first line has four or more blanks and
+                    # there is no metadata key to continue, so it is body text, not a continuation value
+                    feat.add("starts-with-indented-code")
             for _ in range(rng.randint(1, 2)):
-                lines.append("    " + tr.words(rng))
+                lines.append(rng.choice(["    ", "    ", "     ", "      "]) + tr.words(rng))
             feat.add("indented-code")
     if pend is not None:
         dl = def_lines(rng, tr, feat, pend)
@@ -370,8 +387,21 @@ def gen_comment(rng, eid, rich=True, meta_ok=True):
     else:
         body = [c.tr.words(rng) for _ in range(rng.randint(1, 2))]
         c.feat.add("paragraph")
+    if has_meta and "meta-blank-separator" in c.feat and rng.random() < 0.2:
+        # after the blank line that ends the header everything is body text, also a first line `Word: text`
+        k = len(c.tr.seq)
+        w = rng.choice(["Note", "Remark", "Example", "Todo", "Usage"])
+        first = f"{w}:" + rng.choice([" ", "  "]) + c.tr.words(rng, 1, 3)
+        c.tr.seq[:] = c.tr.seq[k:] + c.tr.seq[:k]
+        body = [first] + ([""] if rng.random() < 0.5 else []) + body
+        if len(body) > 1 and body[1].startswith("    "):
+            body.insert(1, "")
+        c.feat.add("colon-line-after-header")
     if has_meta and "meta-no-separator" in c.feat and (body[0].startswith("    ") or ":" in body[0]):
+        k = len(c.tr.seq)
         body = [c.tr.words(rng)] + body
+        c.tr.seq[:] = c.tr.seq[k:] + c.tr.seq[:k]  # the words of the new first line come first
+        c.feat.discard("starts-with-indented-code")
     c.lines += body
     return c
 
@@ -471,14 +501,71 @@ class ProgGen:
         self.procs.append((name, is_fn))
         return Node("entity", head, [name], self.maybe_comment([name], p=0.85), body, end)
 
+    def iface_body(self):
+        """A procedure interface body (inside an interface block): statement, optional `import` / `implicit
+        none`, declarations of the dummy arguments and the result, END."""
+        rng = self.rng
+        name = self.name("s")
+        args = [self.name("a") for _ in range(rng.randint(0, 2))]
+        is_fn = rng.random() < 0.4
+        prefix = rng.choice(["", "", "pure ", "elemental "])
+        body = []
+        if is_fn:
+            res = self.name("r")
+            head = f"{prefix}{self.kw('function')} {name}({', '.join(args)}) result({res})"
+            endk = "function"
+        else:
+            head = f"{prefix}{self.kw('subroutine')} {name}({', '.join(args)})"
+            endk = "subroutine"
+        if rng.random() < 0.3:
+            body.append(Node("stmt", rng.choice(["implicit none", "import"])))
+        for a in args:
+            self.filler(body)
+            body.append(self.var_decl([a], rng.choice([", intent(in)", ", intent(out)", ""])))
+        if is_fn:
+            body.append(self.var_decl([res]))
+        end = rng.choice([f"end {endk} {name}", f"end {endk}", f"END {endk.upper()}"])
+        n = Node("entity", head, [name], self.maybe_comment([name], p=0.85), body, end)
+        n.is_fn = is_fn
+        return n
+
+    def iface_block(self):
+        """An interface block that declares explicit interfaces: `interface` without a generic name, or
+        `abstract interface`.  FORD shows one interface entity per procedure of the block (named like the
+        procedure), each documented by the block's comment; the procedure inside keeps its own comment."""
+        rng = self.rng
+        abstract = rng.random() < 0.5
+        bodies = [self.iface_body() for _ in range(rng.choice([1, 1, 2, 3]))]
+        names = [b.names[0] for b in bodies]
+        keys = [f"{nm}@iface" for nm in names]
+        if not abstract:
+            keys = ["@iblock:" + min(names)] + keys
+        self.n += 1
+        c = gen_comment(rng, self.n, True) if rng.random() < 0.7 else None
+        inner = []
+        for b in bodies:
+            self.filler(inner)
+            inner.append(b)
+        n = Node("entity", rng.choice(["abstract interface", "ABSTRACT INTERFACE"]) if abstract
+                 else rng.choice(["interface", "INTERFACE"]), keys, c, inner,
+                 rng.choice(["end interface", "END INTERFACE"]))
+        n.iface_block = "abstract" if abstract else "plain"
+        return n
+
     def dtype(self, subs):
         rng = self.rng
         name = self.name("ty")
         head = rng.choice([f"type :: {name}", f"type, public :: {name}", f"type {name}", f"TYPE :: {name}"])
         body = []
+        default_public = True
+        if rng.random() < 0.12:
+            body.append(Node("stmt", "private"))  # components are private unless declared public
+            default_public = False
         for _ in range(rng.randint(0, 3)):
             self.filler(body)
-            body.append(self.var_decl())
+            attrs = rng.choice(["", "", "", ", public", ", private"])
+            body.append(self.var_decl(attrs=attrs))
+            body[-1].public_component = default_public if not attrs else attrs == ", public"
         if subs and rng.random() < 0.5:
             body.append(Node("stmt", "contains"))
             for _ in range(rng.randint(1, 2)):
@@ -487,11 +574,39 @@ class ProgGen:
                 txt = rng.choice([f"procedure :: {bn} => {tgt}", f"procedure, public :: {bn} => {tgt}",
                                   f"procedure, nopass :: {bn} => {tgt}"])
                 body.append(Node("entity", txt, [bn], self.maybe_comment([bn])))
+            if rng.random() < 0.35:
+                # a generic binding over the specific ones above
+                gn = self.name("gb")
+                specifics = [b.names[0] for b in body if b.kind == "entity" and b.text.startswith("procedure")]
+                txt = rng.choice(["generic :: ", "generic, public :: ", "GENERIC :: ", "generic, private :: "]) + \
+                    f"{gn} => " + ", ".join(rng.sample(specifics, rng.randint(1, len(specifics))))
+                body.append(Node("entity", txt, [gn], self.maybe_comment([gn])))
+                body[-1].generic_binding = "private" not in txt
             if rng.random() < 0.3:
                 fn = rng.choice(subs)
                 body.append(Node("entity", f"final :: {fn}", [f"{fn}@final:{name}"], self.maybe_comment([fn])))
         end = rng.choice([f"end type {name}", "end type", f"END TYPE {name}"])
-        return Node("entity", head, [name], self.maybe_comment([name]), body, end)
+        n = Node("entity", head, [name], self.maybe_comment([name]), body, end)
+        n.is_type = True
+        return n
+
+    def extend_types(self, spec):
+        """Type extension: a type may extend a type defined earlier in the same scoping unit (chains of any
+        length arise).  The extending type inherits the public components and bindings of its base type: FORD
+        lists the base type's component *objects* in the extending type too."""
+        rng = self.rng
+        earlier = []
+        for n in spec:
+            if not getattr(n, "is_type", False):
+                continue
+            if earlier and rng.random() < 0.5:
+                base = rng.choice(earlier)
+                name = n.names[0]
+                n.text = rng.choice([f"type, extends({base}) :: {name}", f"type, public, extends({base}) :: {name}",
+                                     f"TYPE, EXTENDS({base}) :: {name}", f"type, extends({base}), public :: {name}",
+                                     f"type,extends( {base} )::{name}"])
+                n.extends = base
+            earlier.append(n.names[0])
 
     def module(self):
         rng = self.rng
@@ -508,7 +623,7 @@ class ProgGen:
         spec = []
         for _ in range(rng.randint(0, 3)):
             spec.append(self.var_decl())
-        for _ in range(rng.randint(0, 2)):
+        for _ in range(rng.choice([0, 1, 1, 2, 3])):
             spec.append(self.dtype(top_subs))
         if top_subs and rng.random() < 0.5:
             gname = self.name("g")
@@ -517,14 +632,20 @@ class ProgGen:
                 self.n += 1
                 # the reference is an entity named like its target; give it a distinct expected key
                 gb.append(Node("entity", f"module procedure {t}", [f"{t}@{gname}"], self.maybe_comment([t], p=0.6)))
+            if rng.random() < 0.3:
+                # a generic interface may also contain interface bodies (of external procedures)
+                gb.insert(rng.randint(0, len(gb)), self.iface_body())
             spec.append(Node("entity", f"interface {gname}", [gname], self.maybe_comment([gname]), gb,
                              rng.choice([f"end interface {gname}", "end interface"])))
+        for _ in range(rng.choice([0, 0, 1, 1, 2])):
+            spec.append(self.iface_block())
         if not self.enum_done and rng.random() < 0.15:
             self.enum_done = True
             eb = [Node("entity", "enumerator :: " + ", ".join(ns := [self.name("e"), self.name("e")]), ns,
                        self.maybe_comment(ns))]
             spec.append(Node("entity", "enum, bind(c)", [""], self.maybe_comment([""]), eb, "end enum"))
         rng.shuffle(spec)
+        self.extend_types(spec)
         for s in spec:
             self.filler(body)
             body.append(s)
@@ -615,6 +736,7 @@ def render(rng, nodes, marks, layout):
     state = {"no_plain_comment_next": False}
     foot_words: dict = {}
     last_line: dict = {}
+    sp_of: dict = {}  # entity name -> the wide separator its comment is written with
 
     def put(line):
         lines.append(line)
@@ -686,7 +808,9 @@ def render(rng, nodes, marks, layout):
                 state["no_plain_comment_next"] = False
             elif n.kind == "stray":
                 c = n.comment
-                sp = " "
+                # same distance between marker and text as in the container's own comment (textwrap.dedent
+                # removes the margin common to all lines of the container's documentation)
+                sp = sp_of.get(container, " ")
                 if last_line.get(container, "").lstrip().startswith("[^"):
                     # directly after a footnote definition the stray lines would (Markdown's lazy continuation)
                     # be part of the footnote text; an empty doc line keeps them a paragraph of their own
@@ -717,6 +841,16 @@ def render(rng, nodes, marks, layout):
                 segs = segments(st, c.lines) if c is not None else []
                 if any(f in ("A", "PA") for f, _ in segs):
                     sp = " "  # a bare "!" + text that starts with a marker character would be a marker line
+                if c is not None and not c.meta and "oneline-meta" not in c.feat and rng.random() < 0.12:
+                    # the consistently wide-indented comment style (`!!    text`; textwrap.dedent in
+                    # FortranBase.markdown exists for it).  Not for comments with a metadata header: META_RE
+                    # accepts at most three blanks before a key.
+                    sp = rng.choice(["    ", "    ", "     ", "       "])
+                    layout.add("wide-indented-comment")
+                    for nm in n.names:
+                        sp_of[nm] = sp
+                if getattr(n, "iface_block", None):
+                    layout.add("interface-block:" + n.iface_block + (":documented" if c is not None else ""))
                 if c is not None:
                     layout.add("style:" + st)
                     if len(segs) > 1:
@@ -762,6 +896,8 @@ def render(rng, nodes, marks, layout):
                         m.update(c.meta)
                         f.update(c.feat)
                         f.add("style:" + st)
+                        if len(sp) >= 4:
+                            f.add("wide-indented-comment")
                     else:
                         expected.setdefault(nm, ([], {}, set(), []))
                 if n.body is not None:
@@ -769,8 +905,41 @@ def render(rng, nodes, marks, layout):
                     put(ind + n.end)
                     state["no_plain_comment_next"] = False
 
+    extended = set()
+
+    def find_extended(nodes):
+        for n in nodes:
+            if n.kind == "entity":
+                if getattr(n, "extends", None):
+                    extended.add(n.extends)
+                if n.body:
+                    find_extended(n.body)
+
+    find_extended(nodes)
     walk(nodes, 0, "<file>")
     expected.setdefault("<file>", ([], {}, set(), []))
+    if extended:
+        layout.add("type-extension")
+
+    def mark_inherited(nodes, inside):
+        for n in nodes:
+            if n.kind == "entity":
+                if inside:
+                    for nm in n.names:
+                        if getattr(n, "public_component", False):
+                            # FORD lists this very object among the components of every extending type too
+                            expected[nm][2].add("public-component-of-extended-type")
+                        if getattr(n, "generic_binding", False):
+                            # ... and a copy of every non-private generic binding
+                            expected[nm][2].add("generic-binding-of-extended-type")
+                            layout.add("generic-binding-of-extended-type")
+                        if nm in expected and expected[nm][0]:
+                            expected[nm][2].add("member-of-extended-type")
+                            layout.add("documented-member-of-extended-type")
+                if n.body:
+                    mark_inherited(n.body, getattr(n, "is_type", False) and n.names[0] in extended)
+
+    mark_inherited(nodes, False)
     for nm, fw in foot_words.items():
         expected[nm][0].extend(fw)  # footnote texts are rendered after everything else, in definition order
     return lines, expected
@@ -844,6 +1013,11 @@ def ent_key(it):
     if isinstance(it, sf.FortranSourceFile):
         return "<file>"
     name = (it.name or "").lower()
+    if isinstance(it, sf.FortranModuleProcedureInterface):
+        return f"{name}@iface"
+    if isinstance(it, sf.FortranInterface) and not name:
+        inner = [(r.name or "").lower() for r in list(getattr(it, "subroutines", [])) + list(getattr(it, "functions", []))]
+        return "@iblock:" + (min(inner) if inner else "")
     if isinstance(it, sf.FortranModuleProcedureReference):
         return f"{name}@{(it.parent.name or '').lower()}"
     if isinstance(it, sf.FortranFinalProc):
@@ -851,7 +1025,10 @@ def ent_key(it):
     return name
 
 
-def run_ford(ford, path: Path, marks):
+DISPLAY_ALL = ["public", "protected", "private"]
+
+
+def run_ford(ford, path: Path, marks, display=None, after_parse=None):
     """Parse one file with the real code; returns (project, md) or raises."""
     import ford.fortran_project
     import ford.sourceform as sf
@@ -859,19 +1036,67 @@ def run_ford(ford, path: Path, marks):
     from ford.settings import ProjectSettings
 
     doc, pre, alt, prealt = marks
+    kw = {} if display is None else {"display": list(display)}
     s = ProjectSettings(src_dir=[path.parent], preprocess=False, docmark=doc, predocmark=pre,
                         docmark_alt=alt, predocmark_alt=prealt, graph=False, search=False,
-                        warn=False, dbg=True, quiet=True)
+                        warn=False, dbg=True, quiet=True, **kw)
     sf.namelist = sf.NameSelector()
     p = ford.fortran_project.Project(s)
+    if after_parse is not None:
+        after_parse(p)
     p.correlate()
     # as the command line does after ProjectSettings.normalise_paths: project_url = the (absolute) output directory
     md = MetaMarkdown(s.md_base_dir, base_url=str(path.parent / "doc"), extensions=s.md_extensions, aliases={}, project=p)
     return p, md
 
 
-def observe(ford, d: Path, lines, marks, A, captured):
-    """Real code on one generated file.  Returns dict with per-entity observations or an error."""
+# Where the pages look for the entities they show: the child collections of every kind of container (the harness's
+# own list, on purpose not `FortranContainer.children` / `markdownable_items`).  Cross links (`procedure`,
+# `bindings`, `constructor`) are followed too: inside one file they only lead to objects of the same tree.
+CHILD_ATTRS = ["modules", "submodules", "programs", "subroutines", "functions", "interfaces", "absinterfaces",
+               "types", "variables", "local_variables", "args", "retvar", "boundprocs", "finalprocs", "modprocs",
+               "modprocedures", "enums", "common", "blockdata", "namelists", "contents", "procedure", "bindings",
+               "constructor"]
+
+
+def tree_entities(sf, root):
+    """Every FortranBase object reachable from the source file through the child collections, once, in
+    pre-order.  This is the set of objects whose `doc` a page can show; it is found without looking at
+    `_to_be_markdowned`."""
+    seen, out = set(), []
+
+    def visit(o):
+        if not isinstance(o, sf.FortranBase) or id(o) in seen or hasattr(o, "external_url"):
+            return
+        seen.add(id(o))
+        out.append(o)
+        for a in CHILD_ATTRS:
+            v = getattr(o, a, None)
+            if v is None or isinstance(v, str):
+                continue
+            if isinstance(v, dict):
+                v = list(v.values())
+            if isinstance(v, (list, tuple)):
+                for x in v:
+                    visit(x)
+            else:
+                visit(v)
+
+    visit(root)
+    return out
+
+
+def str_meta(it):
+    m = getattr(it, "meta", None)
+    return {key: getattr(m, key) for key in STR_META if getattr(m, key, None) is not None}
+
+
+def observe(ford, d: Path, lines, marks, A, captured, skip_attrs=("external_url",), display=None, inherited=()):
+    """Real code on one generated file.  Returns dict with per-entity observations or an error.
+
+    Entities are found on two independent routes: the file's registration list `_to_be_markdowned` (creation
+    order; what the attach model predicts) and a walk over the entity tree (what the pages show).  Which of them
+    were converted, and in which order, is observed by a spy on `FortranBase.markdown`."""
     from bs4 import BeautifulSoup
 
     for old in d.glob("*.f90"):
@@ -882,30 +1107,84 @@ def observe(ford, d: Path, lines, marks, A, captured):
 
     handed_meta = {}  # id(entity) -> the docstring as it was handed to read_metadata (last call)
     orig_rm = sf.FortranBase.read_metadata
+    orig_md = sf.FortranBase.markdown
+    conv_order = []   # objects whose `markdown` ran, in call order
 
     def rm_spy(self):
         handed_meta[id(self)] = list(self.doc_list)
         return orig_rm(self)
 
+    def md_spy(self, md):
+        conv_order.append(self)
+        return orig_md(self, md)
+
+    parsed = {}
+    cand = list(skip_attrs) + [a for a in ("doc",) if a not in skip_attrs]
+
+    def after_parse(p):
+        # between parsing and `Project.correlate`: the registration list, every entity's doc lines, metadata
+        # and optional attributes as parsing left them
+        fs = list(p.allfiles)
+        if len(fs) != 1:
+            return
+        src = fs[0]
+        reg = [x for x in getattr(src, "_to_be_markdowned", None) or [] if isinstance(x, sf.FortranBase)]
+        if not reg:
+            # registration list not readable: fall back to what the project itself would convert
+            reg = [x for x in src.markdownable_items if x is not src]
+        parsed["reg"] = reg
+        parsed["meta"] = {id(x): str_meta(x) for x in [src] + reg}
+        parsed["attrs"] = [[a for a in cand if hasattr(x, a)] for x in reg]
+
     sf.FortranBase.read_metadata = rm_spy
     try:
         with common.quiet():
-            p, md = run_ford(ford, f, marks)
+            p, md = run_ford(ford, f, marks, display, after_parse)
             allfiles = list(p.allfiles)
-            if len(allfiles) != 1:
+            if len(allfiles) != 1 or "reg" not in parsed:
                 return {"error": f"{len(allfiles)} files parsed (file skipped after a parse error?)"}
-            items = list(allfiles[0].markdownable_items)
+            src = allfiles[0]
+            # entities registered later (by `correlate`) follow the ones registered while parsing
+            at_parse = {id(x) for x in parsed["reg"]}
+            late = [x for x in getattr(src, "_to_be_markdowned", None) or []
+                    if isinstance(x, sf.FortranBase) and id(x) not in at_parse]
+            reg = parsed["reg"] + late
+            items = [src] + reg
             pre_md = [(ent_key(it), list(it.doc_list)) for it in items]
+            for x in late:
+                parsed["meta"][id(x)] = str_meta(x)
+                parsed["attrs"].append([a for a in cand if hasattr(x, a)])
+            conv_req = [",".join(at + (["inh"] if ent_key(it) in inherited and id(it) in at_parse else [])) or "-"
+                        for it, at in zip(reg, parsed["attrs"])]
+            placeholder_impl = [str(i) for i, it in enumerate(reg) if hasattr(it, "doc")]
+            parsed["meta"][id(src)] = str_meta(src)  # the file's own metadata is read at the end of parsing
+            reset_impl = [str(i) for i, it in enumerate(reg)
+                          if parsed["meta"][id(it)] and not str_meta(it)]
+            had_meta = {str(i) for i, it in enumerate(reg) if parsed["meta"][id(it)]}
             captured.clear()
+            sf.FortranBase.markdown = md_spy
             p.markdown(md)
+            sf.FortranBase.markdown = orig_md
+            known = {id(x) for x in items}
+            extra = [x for x in tree_entities(sf, src) if id(x) not in known]
     except Exception as e:  # noqa
         return {"error": f"{type(e).__name__}: {str(e)[:300]}"}
     finally:
         sf.FortranBase.read_metadata = orig_rm
-    ents = []
-    for it, (k, dl) in zip(items, pre_md):
-        meta = {key: getattr(it.meta, key) for key in STR_META if getattr(it.meta, key) is not None}
-        soup = BeautifulSoup(it.doc or "", "html.parser")
+        sf.FortranBase.markdown = orig_md
+    n_conv: dict = {}
+    for x in conv_order:
+        n_conv[id(x)] = n_conv.get(id(x), 0) + 1
+    ents, by_id = [], {}
+    n_parse = 1 + len(parsed["reg"])
+    for it, (k, dl), origin in [(it, kd, "registered" if i < n_parse else "registered-by-correlate")
+                                for i, (it, kd) in enumerate(zip(items, pre_md))] + \
+                               [(x, (ent_key(x), list(getattr(x, "doc_list", []))), "tree-only") for x in extra]:
+        meta = str_meta(it)
+        raw = getattr(it, "doc", None)
+        has_doc = isinstance(raw, str)
+        raw = raw if has_doc else ""
+        soup = BeautifulSoup(raw, "html.parser")
         for sup in soup.find_all("sup"):
             # the number of a footnote reference is not a word of the comment (and would glue to the word before)
             if sup.find("a", class_="footnote-ref"):
@@ -918,12 +1197,21 @@ def observe(ford, d: Path, lines, marks, A, captured):
             for li in div.find_all("li"):
                 foots.append(" ".join(li.get_text().replace("\u21a9", " ").split()))
         titles = [x.get("title", "") for x in soup.find_all("abbr")]
-        raw = it.doc or ""
-        ents.append({"key": k, "doc_list": dl, "raw_doc_list": handed_meta.get(id(it), []), "meta": meta,
-                     "words": TRACER.findall(text), "metawords": re.findall(r"m\d+[a-z]+\d+", raw),
-                     "raw_words": TRACER.findall(raw), "links": links, "foots": foots, "abbr_titles": titles,
-                     "abbr_title_words": TRACER.findall(" ".join(titles))})
-    return {"ents": ents, "handed": {tuple(c) for c in captured}}
+        e = {"key": k, "doc_list": dl, "raw_doc_list": handed_meta.get(id(it), []), "meta": meta,
+             "words": TRACER.findall(text), "metawords": re.findall(r"m\d+[a-z]+\d+", raw),
+             "raw_words": TRACER.findall(raw), "links": links, "foots": foots, "abbr_titles": titles,
+             "abbr_title_words": TRACER.findall(" ".join(titles)),
+             "meta_parsed": parsed["meta"].get(id(it), meta), "raw_doc": raw[:80],
+             "origin": origin, "has_doc": has_doc, "conversions": n_conv.get(id(it), 0),
+             "kind": type(it).__name__, "parent": (getattr(getattr(it, "parent", None), "name", "") or "").lower()}
+        by_id[id(it)] = e
+        ents.append(e)
+    idx = {id(x): i for i, x in enumerate(reg)}
+    conv_impl = ["F" if x is src else str(idx[id(x)]) if id(x) in idx else "?" + ent_key(x) for x in conv_order]
+    return {"ents": ents, "n_registered": n_parse, "handed": {tuple(c) for c in captured},
+            "conv_req": conv_req, "conv_impl": conv_impl, "placeholder_impl": placeholder_impl,
+            "reset_impl": reset_impl, "had_meta": had_meta,
+            "conv_ents": [by_id[id(x)] for x in conv_order if id(x) in by_id]}
 
 
 # --------------------------------------------------------------------------
@@ -931,7 +1219,7 @@ def observe(ford, d: Path, lines, marks, A, captured):
 # --------------------------------------------------------------------------
 
 
-def classify(feat, key="", kind=None, abbr_before=(), raw_doc_list=()):
+def classify(feat, key="", kind=None, abbr_before=(), raw_doc_list=(), obs=None):
     """Known defect classes (known_findings/C03.json); None = not a known class.
     `kind` is the kind of oracle failure, `abbr_before` the abbreviation tokens defined by comments that were
     converted before this entity's."""
@@ -942,12 +1230,33 @@ def classify(feat, key="", kind=None, abbr_before=(), raw_doc_list=()):
         return "C03-abbreviation-leaks-to-later-entities" if leaked else None
     if kind in ("foreign-attr", "attr-word-shown"):
         return None
+    if kind == "words-or-meta" and obs is not None and obs.get("oracle_detail") == "words" and \
+            "generic-binding-of-extended-type" in feat and obs.get("kind") == "FortranBoundProcedure" and \
+            obs.get("origin") == "tree-only" and not obs.get("has_doc") and not obs.get("conversions"):
+        # the object is the copy of a base type's generic binding that `correlate` puts into an extending type;
+        # it is in no registration list, was never converted and has no `doc` attribute at all
+        return "C03-inherited-generic-binding-undocumented"
+    if kind == "words-or-meta" and obs is not None and obs.get("oracle_detail") == "meta-not-set" and \
+            "public-component-of-extended-type" in feat and obs.get("kind") == "FortranVariable" and \
+            obs.get("meta_parsed") and not obs.get("meta"):
+        # the comment's metadata was set by parsing and is gone after `correlate`: only for a public component
+        # of a type that another type extends
+        return "C03-inherited-component-metadata-reset"
     if kind == "words-or-meta" and "oneline-colon-text" in feat and len(raw_doc_list) > 1 and \
             ":" in raw_doc_list[0] and not any(l.strip() for l in raw_doc_list[1:]):
         return "C03-oneline-text-with-colon-lost-before-blank-line"
     if "text-before-note" in feat:
         return "C03-text-before-note-dropped"
-    if "@" in key and "@final:" not in key and "meta-header" in feat:
+    if (key.endswith("@iface") or key.startswith("@iblock:")) and ("meta-header" in feat or "oneline-meta" in feat) \
+            and obs is not None and \
+            obs.get("kind") in ("FortranModuleProcedureInterface", "FortranInterface") and kind == "words-or-meta" and \
+            (obs.get("oracle_detail") == "meta-not-set" and key.endswith("@iface")
+             or obs.get("oracle_detail") == "words" and "colon-line-after-header" in feat):
+        # the comment of an interface block with a metadata header: its metadata does not reach the interfaces
+        # the block declares, and their second read_metadata eats a first body line `Word: text`
+        return "C03-interface-block-metadata-not-applied"
+    if "@" in key and "@final:" not in key and not key.endswith("@iface") and not key.startswith("@iblock:") and \
+            "meta-header" in feat:
         return "C03-modproc-metadata-not-split"
     return None
 
@@ -1074,7 +1383,9 @@ def impl_rmeta(ford, doc_list):
 def variants(ford):
     """Which of the repairs proposed in fixes/C03-*.diff the working tree has, decided on the findings'
     witnesses: flags 'm' (modproc metadata), 'o' (one-line rule ignores trailing empty lines),
-    'a' (MetaMarkdown.reset removes abbreviation patterns)."""
+    'a' (MetaMarkdown.reset removes abbreviation patterns), 'i' (an inherited component keeps the metadata of
+    its own comment), 'g' (the copy of an inherited generic binding is registered for conversion), 'w' (the interfaces declared
+    by an interface block take the block's metadata instead of reading the rest of its comment again)."""
     from ford._markdown import MetaMarkdown
 
     flags = ""
@@ -1082,6 +1393,46 @@ def variants(ford):
         flags += "m"
     if impl_rmeta(ford, ["Note: must be positive", ""])[-2:] == ["L:Note: must be positive", "L:"]:
         flags += "o"
+    wit = ["module m", "type :: base", "integer :: a", "!! author: Jane", "!!", "!! text of a", "end type",
+           "type, extends(base) :: child", "end type", "end module"]
+    with common.scratch_dir() as d:
+        f = d / "w.f90"
+        f.write_text("\n".join(wit) + "\n")
+        try:
+            with common.quiet():
+                p, _ = run_ford(ford, f, DEFAULT_MARKS)
+                for it in list(p.allfiles)[0].markdownable_items:
+                    if type(it).__name__ == "FortranVariable" and it.name == "a" and it.meta.author == "Jane":
+                        flags += "i"
+        except Exception:
+            pass
+    wit = ["module m", "interface", "!! author: Jane", "!!", "!! text", "subroutine f()", "end subroutine",
+           "end interface", "end module"]
+    with common.scratch_dir() as d:
+        f = d / "w.f90"
+        f.write_text("\n".join(wit) + "\n")
+        try:
+            with common.quiet():
+                p, _ = run_ford(ford, f, DEFAULT_MARKS)
+                for it in list(p.allfiles)[0].markdownable_items:
+                    if type(it).__name__ == "FortranModuleProcedureInterface" and it.meta.author == "Jane":
+                        flags += "w"
+        except Exception:
+            pass
+    wit = ["module m", "type :: ty1", "contains", "procedure :: b1 => s1", "generic :: g => b1", "!! doc g", "end type",
+           "type, extends(ty1) :: ty2", "end type", "contains", "subroutine s1(x)", "class(ty1) :: x", "end subroutine",
+           "end module"]
+    with common.scratch_dir() as d:
+        f = d / "w.f90"
+        f.write_text("\n".join(wit) + "\n")
+        try:
+            with common.quiet():
+                p, _ = run_ford(ford, f, DEFAULT_MARKS)
+                if sum(1 for it in list(p.allfiles)[0].markdownable_items
+                       if type(it).__name__ == "FortranBoundProcedure" and it.name == "g") == 2:
+                    flags += "g"
+        except Exception:
+            pass
     try:
         md = MetaMarkdown()
         md.reset().convert("ABX one\n\n*[ABX]: words of a")
@@ -1231,8 +1582,9 @@ def docblock_stream(ford, drv, rng, n, rep, hist):
 
 def oracle_entity(name, exp, obs):
     """Property oracle for one entity: (None, None) or (description of the failure, kind)."""
-    why = _oracle_words_meta(name, exp, obs)
+    why, detail = _oracle_words_meta(name, exp, obs)
     if why:
+        obs["oracle_detail"] = detail
         return why, "words-or-meta"
     words, attrs = exp[0], exp[3]
     own = set(words) | set(attrs)
@@ -1251,22 +1603,28 @@ def _oracle_words_meta(name, exp, obs):
         missing = [w for w in words if w not in obs["words"]]
         foreign = [w for w in obs["words"] if w not in words]
         dup = sorted({w for w in obs["words"] if obs["words"].count(w) > 1})
+        how = ""
+        if not obs.get("has_doc", True):
+            how = " (the object has no `doc` at all: its comment was never converted)"
+        elif not obs.get("conversions", 1):
+            how = f" (the object was never converted; its `doc` is {obs.get('raw_doc', '')[:60]!r})"
         return (f"entity {name!r}: rendered tracer words differ from its comment: missing={missing[:6]} "
                 f"foreign={foreign[:6]} duplicated={dup[:6]} "
-                f"{'reordered' if not missing and not foreign and not dup else ''}")
+                f"{'reordered' if not missing and not foreign and not dup else ''}" + how), "words"
     if obs["metawords"]:
-        return f"entity {name!r}: metadata shown in the rendered doc: {obs['metawords'][:4]}"
+        return f"entity {name!r}: metadata shown in the rendered doc: {obs['metawords'][:4]}", "meta-shown"
     for k, vs in meta.items():
         if obs["meta"].get(k) != "\n".join(vs):
-            return f"entity {name!r}: metadata {k!r} is {obs['meta'].get(k)!r}, comment says {vs!r}"
-    return None
+            return f"entity {name!r}: metadata {k!r} is {obs['meta'].get(k)!r}, comment says {vs!r}", "meta-not-set"
+    return None, None
 
 
 def run_case(ford, drv_reqs, d, lines, marks, A, captured):
     return observe(ford, d, lines, marks, A, captured)
 
 
-def program_stream(ford, drv, rng, n, rep, hist, samples, distinct, replay_case=None, flags="-"):
+def program_stream(ford, drv, rng, n, rep, hist, samples, distinct, replay_case=None, flags="-",
+                   skip_attrs=("external_url",)):
     import ford.md_admonition as A
 
     captured = []
@@ -1284,7 +1642,8 @@ def program_stream(ford, drv, rng, n, rep, hist, samples, distinct, replay_case=
             cases.append((replay_case["lines"],
                           {k: (v[0], v[1], set(v[2]), list(v[3]) if len(v) > 3 else [])
                            for k, v in replay_case["expected"].items()},
-                          tuple(replay_case["marks"]), set(replay_case.get("layout", []))))
+                          tuple(replay_case["marks"]), set(replay_case.get("layout", [])),
+                          replay_case.get("display")))
         else:
             for k in range(n):
                 g = ProgGen(rng)
@@ -1297,16 +1656,23 @@ def program_stream(ford, drv, rng, n, rep, hist, samples, distinct, replay_case=
                     lines, expected = render(rng, nodes, marks, layout)
                     if marks != DEFAULT_MARKS:
                         layout.add("alternative-marker-characters")
-                    cases.append((lines, expected, marks, layout))
-        model = drv.batch([["c03.attach", flags, *marks, *lines] for lines, _, marks, _ in cases])
+                    # `display` decides which entities the pages list (private ones are pruned from the
+                    # collections by default); the conversion of comments must not depend on it
+                    display = DISPLAY_ALL if rng.random() < 0.5 else None
+                    layout.add("display:" + ("all" if display else "default"))
+                    cases.append((lines, expected, marks, layout, display))
+        model = drv.batch([["c03.attach", flags, *marks, *lines] for lines, _, marks, _, _ in cases])
         pipe_reqs, pipe_ctx = [], []
         md_reqs, md_ctx = [], []
+        conv_reqs, conv_ctx = [], []
         with common.scratch_dir() as d:
-            for ci, ((lines, expected, marks, layout), mo) in enumerate(zip(cases, model)):
-                obs = observe(ford, d, lines, marks, A, captured)
+            for ci, ((lines, expected, marks, layout, display), mo) in enumerate(zip(cases, model)):
+                inherited = {k for k, v in expected.items() if "public-component-of-extended-type" in v[2]}
+                obs = observe(ford, d, lines, marks, A, captured, skip_attrs, display, inherited)
                 for f in layout:
                     hist["layout:" + f] = hist.get("layout:" + f, 0) + 1
                 case = {"stream": "program", "lines": lines, "marks": list(marks), "layout": sorted(layout),
+                        "display": display,
                         "expected": {k: [v[0], v[1], sorted(v[2]), v[3]] for k, v in expected.items()}}
                 allfeat = set().union(*[v[2] for v in expected.values()]) if expected else set()
                 if "error" in obs:
@@ -1318,7 +1684,8 @@ def program_stream(ford, drv, rng, n, rep, hist, samples, distinct, replay_case=
                     continue
                 # ---- correspondence: attach
                 m_ents = parse_entities(mo[1:]) if mo[0] == "ok" else None
-                i_ents = [(e["key"], e["doc_list"]) for e in obs["ents"]]
+                reg_ents = obs["ents"][:obs["n_registered"]]  # the file + its registration list, creation order
+                i_ents = [(e["key"], e["doc_list"]) for e in reg_ents]
                 if m_ents is None:
                     n_corr += 1
                     rep.tie_broken(f"correspondence program: model reader error {mo} but implementation parsed the file", case)
@@ -1332,13 +1699,15 @@ def program_stream(ford, drv, rng, n, rep, hist, samples, distinct, replay_case=
                         rep.tie_broken(f"correspondence program/attach: model and implementation differ: {str(diff)[:200]}",
                                        dict(case, model=mm, impl=ii))
                     else:
-                        for (n_, mmeta, _), e in zip(m_ents, obs["ents"]):
+                        for (n_, mmeta, _), e in zip(m_ents, reg_ents):
+                            # (the attach model ends where parsing ends; what `correlate` does to the metadata
+                            # afterwards is the conversion model's part, see program/convert)
                             want = {k: "\n".join(v) for k, v in mmeta.items() if k in STR_META}
-                            if want != e["meta"]:
+                            if want != e["meta_parsed"]:
                                 n_corr += 1
-                                rep.tie_broken(f"correspondence program/meta: entity {n_!r} model {want} vs implementation {e['meta']}", case)
+                                rep.tie_broken(f"correspondence program/meta: entity {n_!r} model {want} vs implementation {e['meta_parsed']}", case)
                 # ---- pipeline requests (model of dedent + admonition pre-processing on the real doc_list)
-                for e in obs["ents"]:
+                for e in reg_ents:
                     dl = e["doc_list"]
                     if not "\n".join(dl).strip():
                         continue
@@ -1350,18 +1719,29 @@ def program_stream(ford, drv, rng, n, rep, hist, samples, distinct, replay_case=
                     pipe_ctx.append((impl_adm(A, src), case, e["key"]))
                 # ---- request for the model of the shared Markdown instance: all comments in conversion order
                 req = ["c03.mdstate", flags]
-                for e in obs["ents"]:
+                for e in obs["conv_ents"]:
                     req.append("E")
                     req += ["L" + l for l in textwrap.dedent("\n".join(e["doc_list"])).split("\n")]
                 md_reqs.append(req)
                 md_ctx.append((case, [(e["key"], e["links"], [" ".join(x.split()) for x in e["foots"]],
-                                       [" ".join(x.split()) for x in e["abbr_titles"]]) for e in obs["ents"]]))
+                                       [" ".join(x.split()) for x in e["abbr_titles"]]) for e in obs["conv_ents"]]))
+                # ---- request for the model of the conversion schedule: which registered entities are converted
+                conv_reqs.append(["c03.convert", flags, *obs["conv_req"]])
+                conv_ctx.append((case, obs["conv_impl"], obs["placeholder_impl"], obs["reset_impl"], obs["had_meta"]))
                 # ---- property oracle
                 seen = set()
                 failed = False
                 abbr_before: set = set()  # abbreviation tokens defined by comments converted so far
                 reported: set = set()
-                for e in obs["ents"]:
+                # in conversion order (what was converted earlier matters for the abbreviation class), then
+                # every object that was never converted
+                done: set = set()
+                ordered = []
+                for e in obs["conv_ents"] + obs["ents"]:
+                    if id(e) not in done:
+                        done.add(id(e))
+                        ordered.append(e)
+                for e in ordered:
                     n_ent += 1
                     exp = expected.get(e["key"])
                     if exp is None:
@@ -1374,13 +1754,15 @@ def program_stream(ford, drv, rng, n, rep, hist, samples, distinct, replay_case=
                         distinct.add(common.digest([e["key"], exp[0], sorted(exp[2]), lines]))
                     if why:
                         # one report per class and case: a listed class must not hide an unlisted failure
-                        cls = classify(exp[2], e["key"], kind, sorted(abbr_before), e["raw_doc_list"])
+                        cls = classify(exp[2], e["key"], kind, sorted(abbr_before), e["raw_doc_list"], e)
                         if cls not in reported:
                             reported.add(cls)
                             failed = True
                             n_orc += 1
                             rep.failing_input(dict(case, why=why, entity=e["key"], observed_words=e["words"],
-                                                   observed_doc_list=e["doc_list"]), cls)
+                                                   observed_doc_list=e["doc_list"],
+                                                   observed_object={k: e[k] for k in ("kind", "parent", "origin",
+                                                                                      "has_doc", "conversions")}), cls)
                     abbr_before |= {f.split(":", 1)[1] for f in exp[2] if f.startswith("abbr-def:")}
                 lost = [k for k, v in expected.items() if k not in seen and v[0]]
                 if lost and not failed:
@@ -1409,6 +1791,29 @@ def program_stream(ford, drv, rng, n, rep, hist, samples, distinct, replay_case=
             elif bad:
                 n_corr += 1
                 rep.tie_broken(f"correspondence program/mdstate: model answered {g[:3]} for {len(im)} entities", case)
+        for g, (case, im, ph_im, rs_im, had_meta) in zip(drv.batch(conv_reqs), conv_ctx):
+            if g[0] != "ok" or "P" not in g or "R" not in g:
+                n_corr += 1
+                rep.tie_broken(f"correspondence program/convert: model answered {g[:3]}", case)
+                continue
+            iP, iR = g.index("P"), g.index("R")
+            mo_conv, mo_ph = ["F"] + list(g[1:iP]), list(g[iP + 1:iR])
+            mo_rs = [i for i in g[iR + 1:] if i in had_meta]  # a reset shows only where the comment set metadata
+            if mo_conv != im:
+                n_corr += 1
+                rep.tie_broken(f"correspondence program/convert: the model of markdownable_items / Project.markdown "
+                               f"converts the file and registered entities {mo_conv[1:][:30]} (once each, in "
+                               f"registration order), the implementation converted {im[:30]}"[:400], case)
+            elif mo_ph != ph_im:
+                n_corr += 1
+                rep.tie_broken(f"correspondence program/convert: registered entities carrying a `doc` before the "
+                               f"conversion (inheritance placeholder): model {mo_ph[:20]} (the public components of "
+                               f"extended types) vs implementation {ph_im[:20]}"[:400], case)
+            elif mo_rs != rs_im:
+                n_corr += 1
+                rep.tie_broken(f"correspondence program/convert: registered entities whose metadata was emptied "
+                               f"between parsing and conversion: model {mo_rs[:20]} vs implementation {rs_im[:20]}"[:400],
+                               case)
         got = drv.batch(pipe_reqs)
         for g, (im, case, key) in zip(got, pipe_ctx):
             g = g[:2] if g[0] == "err" else g
@@ -1417,7 +1822,7 @@ def program_stream(ford, drv, rng, n, rep, hist, samples, distinct, replay_case=
                 rep.tie_broken(f"correspondence program/pipeline: entity {key!r} model {g[:5]} vs implementation {im[:5]}", case)
     finally:
         A.AdmonitionPreprocessor.run = orig_run
-    return len(cases), n_ent, len(pipe_reqs) + len(md_reqs), n_corr, n_orc
+    return len(cases), n_ent, len(pipe_reqs) + len(md_reqs) + len(conv_reqs), n_corr, n_orc
 
 
 def run(tier: str, seed: int, replay: str | None = None) -> int:
@@ -1469,7 +1874,8 @@ def run(tier: str, seed: int, replay: str | None = None) -> int:
         ev_micro += ev_r
         bad_micro += bad_r
     n_cases, n_ent, n_pipe, n_corr, n_orc = program_stream(ford, drv, rng, n_prog, rep, hist, samples, distinct,
-                                                           replay_case, flags)
+                                                           replay_case, flags,
+                                                           tuple(table.get("skip_attrs", ["external_url"])))
     rep.coverage.update(
         evaluations=ev_micro + n_cases + n_pipe,
         distinct_nontrivial=len(distinct),
@@ -1478,7 +1884,8 @@ def run(tier: str, seed: int, replay: str | None = None) -> int:
              "pre block continued with plain doc-marker lines, several preceding / following blocks of different forms) "
              "x marker characters x layout gaps "
              "x comment shape (rich body / one-line key: value / one-line word: text / footnotes, reference links, "
-             "abbreviations with labels shared between comments); "
+             "abbreviations with labels shared between comments / wide-indented / starting with a code block / "
+             "`Word: text` after the header) x type extension, generic bindings, interface blocks with bodies x display; "
              "counted: distinct (entity, tracer sequence, doc features, file) tuples whose entity has a non-empty doc comment",
         samples=samples,
         traces_validated_against_impl=ev_micro + n_cases + n_pipe,
@@ -1498,5 +1905,9 @@ def run(tier: str, seed: int, replay: str | None = None) -> int:
         "(reference links, footnotes, abbreviations) in the forms the generator emits: definitions on their own lines "
         "at the end of a comment, uses as whole blank-separated words of paragraph lines",
         "the MetaMarkdown instance is built with an absolute base_url (the output directory), as ford's command line does",
+        "one source file per project: conversion order across files, type extension across modules of different "
+        "files and external entities (`external_url`, the only skip attribute of markdownable_items) are not generated",
+        "the entity-tree walk uses the harness's own list of child collections (CHILD_ATTRS); the HTML pages "
+        "themselves are not rendered by this check",
     ]
     return rep.finish(lean)
